@@ -251,6 +251,25 @@ def worker():
             finally:
                 if os.path.exists(path):
                     os.unlink(path)
+            # avro file of an older release / another tool: the timestamp is a plain long of microseconds since the epoch
+            if form == "obj" and x.tzinfo is not None and utc_ok:  # (an instant beyond 9999-12-31T23:59:59.999999Z has no UTC datetime)
+                micros = (x - _d.datetime(1970, 1, 1, tzinfo=_d.timezone.utc)) // _d.timedelta(microseconds=1)
+                if micros > 0xFFFFFFFF:
+                    path = os.path.join(scratch, "c13-long-%d.avro" % os.getpid())
+                    try:
+                        schema = {"type": "record", "name": "ts", "namespace": "c13", "doc": json.dumps(["c13/ts", [["datetime", "ts"]]]),
+                                  "fields": [{"name": "ts", "type": ["null", "long"]}]}
+                        with open(path, "wb") as f:
+                            fastavro.writer(f, fastavro.parse_schema(schema), [{"ts": micros}])
+                        rd = RecordReader(path)
+                        got = list(rd)[0].ts
+                        rd.close()
+                        judge("avro-long", got, 0.0)
+                    except Exception as e:  # noqa: BLE001
+                        res["viol"].append(["avro-long:raises-%s" % type(e).__name__, {"error": repr(e)[:120]}])
+                    finally:
+                        if os.path.exists(path):
+                            os.unlink(path)
             print(json.dumps(res))
     # (d) ONE writer per format receives ALL values, in both orders: what a writer remembers about one timestamp (its tzinfo
     #     object, its offset) meets every other timestamp of the same zone at another time of the year
